@@ -72,7 +72,10 @@ def record(prog, rng_seed):
             elif op == "randints":
                 r = g.randints(call["n"], call["a"], call["b"]); evs.append(dict(i=i, op="randints", n=call["n"], a=call["a"], b=call["b"], ret=list(r)))
             elif op == "shuffle":
-                n = call["n"]; items = list(range(n)); r = g.shuffle(items, inplace=call.get("inplace", False))
+                n = call["n"]; items = list(range(n)); kind = call.get("kind", "list") if not call.get("inplace") else "list"
+                # shuffle takes any iterable: a list, a tuple, a range, a one-shot iterator or generator
+                arg = {"list": items, "tuple": tuple(items), "range": range(n), "iter": iter(items), "gen": (x for x in items)}[kind]
+                r = g.shuffle(arg, inplace=call.get("inplace", False))
                 if not call.get("inplace") and items != list(range(n)): probs.append(("shuffle:modifies-input", "shuffle modified its input"))
                 evs.append(dict(i=i, op="shuffle", n=n, ret=list(r)))
             elif op == "choice":
@@ -122,7 +125,7 @@ def rand_prog(rng, ncalls=20):
         elif op == "randomsb": prog.append(dict(i=i, op=op, n=rng.randrange(0, 4), min=rng.choice([-3, 0, 5.5]), max=rng.choice([6, 7.25, 100])))
         elif op == "randint": a = rng.randrange(-5, 5); prog.append(dict(i=i, op=op, a=a, b=a + rng.randrange(0, 40)))
         elif op == "randints": a = rng.randrange(-5, 5); prog.append(dict(i=i, op=op, n=rng.randrange(0, 4), a=a, b=a + rng.randrange(0, 9)))
-        elif op == "shuffle": prog.append(dict(i=i, op=op, n=rng.randrange(0, 7), inplace=rng.random() < .3))
+        elif op == "shuffle": prog.append(dict(i=i, op=op, n=rng.randrange(0, 7), inplace=rng.random() < .3, kind=rng.choice(["list", "tuple", "range", "iter", "gen"])))
         elif op == "choice": prog.append(dict(i=i, op=op, n=rng.randrange(1, 6)))
         elif op == "choicew":
             w = [rng.choice([0, 0, 1, 2, 3]) for _ in range(rng.randrange(1, 5))]
@@ -146,7 +149,7 @@ def directed():
         for pos in (1, 2, 3):
             seed = prev(crit, pos)
             pre = [dict(i=1, op="random")] * (pos - 1)
-            for call in (dict(op="random"), dict(op="random", min=-3, max=7.25), dict(op="randint", a=-2, b=17), dict(op="randints", n=2, a=0, b=5), dict(op="shuffle", n=4),
+            for call in (dict(op="random"), dict(op="random", min=-3, max=7.25), dict(op="randint", a=-2, b=17), dict(op="randints", n=2, a=0, b=5), dict(op="shuffle", n=4), dict(op="shuffle", n=1, kind="gen"), dict(op="shuffle", n=1, kind="iter"), dict(op="shuffle", n=0, kind="gen"), dict(op="shuffle", n=2, kind="iter"),
                          dict(op="choice", n=3), dict(op="choicew", w=[0, 2, 1]), dict(op="choicew", w=[0, 0, 3], plain=True), dict(op="choicew", w=[1, 0]),
                          dict(op="choicew", w=[2, 1, 0], plain=True), dict(op="choicew", w=[0, 3, 7], ids=[0, 1, 0]), dict(op="choicew", w=[1, 2, 3], ids=[1, 1, 1]), dict(op="gauss"), dict(op="randoms", n=2)):
                 progs.append([dict(i=1, op="new", seed=seed)] + pre + [dict(call, i=1), dict(i=1, op="randint", a=0, b=9)])
